@@ -905,6 +905,17 @@ func runMesh3Big(src *choice.Source, st *Stats) (fs []Finding) {
 			addModel(b)
 		}
 	}
+	// one vertex sticks far out: it alone sets the lower x and y bounds
+	spike := model3d.XYZ(-5, -7, 0)
+	for _, t := range faces {
+		for j, c := range t {
+			if c == pt(0, 0) {
+				t[j] = spike
+			}
+		}
+	}
+	model[spike] = model[pt(0, 0)]
+	delete(model, pt(0, 0))
 	m := model3d.NewMeshTriangles(faces)
 	built := src.Chance(3, 4)
 	if built {
@@ -936,6 +947,48 @@ func runMesh3Big(src *choice.Source, st *Stats) (fs []Finding) {
 		if got := len(m.VertexSlice()); got != nv {
 			return []Finding{{"mesh3big|vertexslice", fmt.Sprintf("after %v: VertexSlice has %d vertices, the current faces have %d", trace, got, nv)}}
 		}
+		return nil
+	}
+	if src.Chance(1, 6) {
+		// an in-place editor whose callback looks at the intermediate mesh: the
+		// predicate asks for the bounds every time and lets the editor collapse the
+		// edges at the spike (and a few others); afterwards every answer of the
+		// result - bounds included - must be that of its current faces
+		accepted, calls := 0, 0
+		res := m.EliminateEdges(func(tmp *model3d.Mesh, seg model3d.Segment) bool {
+			calls++
+			if calls <= 3 {
+				// (a full pass over the faces each: only the first few calls ask)
+				lo, hi := tmp.Min(), tmp.Max()
+				_ = lo.Dist(hi)
+			}
+			if seg[0] == spike || seg[1] == spike || accepted < 12 && (seg[0].X+seg[0].Y+seg[1].X) == float64(int(seg[0].X+seg[0].Y+seg[1].X)) && int(seg[0].X*7+seg[0].Y*3)%97 == 0 {
+				accepted++
+				return true
+			}
+			return false
+		})
+		st.Ops++
+		lo, hi := res.Min(), res.Max()
+		first := true
+		var wlo, whi model3d.Coord3D
+		res.Iterate(func(t *model3d.Triangle) {
+			for _, c := range t {
+				if first {
+					wlo, whi, first = c, c, false
+				}
+				wlo, whi = wlo.Min(c), whi.Max(c)
+			}
+		})
+		if !first && (lo != wlo || hi != whi) {
+			return []Finding{{"mesh3big|bounds-after-editor", fmt.Sprintf("EliminateEdges (its predicate queried Min/Max of the intermediate mesh, %d edges collapsed) returned a mesh of %d faces whose Min/Max are %v %v, but its faces span %v %v", accepted, res.NumTriangles(), lo, hi, wlo, whi)}}
+		}
+		fresh := model3d.NewMeshTriangles(res.TriangleSlice())
+		if len(res.VertexSlice()) != len(fresh.VertexSlice()) {
+			return []Finding{{"mesh3big|vertexslice-after-editor", fmt.Sprintf("EliminateEdges on %d faces: VertexSlice has %d vertices, a mesh freshly built from the result has %d", len(faces), len(res.VertexSlice()), len(fresh.VertexSlice()))}}
+		}
+		st.probe("big mesh: EliminateEdges with a predicate that queries the bounds")
+		st.Desc = fmt.Sprintf("mesh3big: EliminateEdges with querying predicate on %d faces, %d collapses", len(faces), accepted)
 		return nil
 	}
 	for step := 0; step < n; step++ {
